@@ -228,6 +228,13 @@ class Puppet(object):
             for r in self._emit(msg, rfb, uh):
                 yield r
             return
+        if kind == "replace-alert":
+            # a warning alert in place of the message (e.g. no_certificate
+            # where a Certificate is due); nothing enters the transcript
+            al = Alert().create(act[1], AlertLevel.warning)
+            for r in self._emit(al, True, False):
+                yield r
+            return
         if kind == "insert-nohash":
             # an on-path attacker's insertion: the puppet's own transcript
             # does not contain it (a victim that silently drops the message
@@ -298,6 +305,8 @@ class Puppet(object):
                 raise NotQueueable(act[1])
             self._q(ins)
             self._q(msg)
+        elif act[0] == "replace-alert":
+            raise NotQueueable("alert in a coalesced flight")
         elif act[0] == "insert-nohash":
             ins = build_insert(self.conn, act[1])
             if ins.contentType != msg.contentType:
